@@ -328,7 +328,7 @@ public:
 
   friend constexpr blocking_kind
   tag_invoke(tag_t<unifex::blocking>, const type& s) noexcept {
-    blocking_kind pred = unifex::blocking(s);
+    blocking_kind pred = unifex::blocking(s.source_);
     return std::max(
         pred(),
         std::min(
